@@ -2,9 +2,6 @@ import PV.C02.RParse
 /-
   PV.C02.SoundBase — vocabulary and generic lemmas for the proof that the ranged parser's trees pass `rangesOk`:
 
-  * `okX` / `rangesOkX`: the checker `ok` with one more exemption from the enclosure clause — the slot `default`
-    (the default value of a parameter, which the code as it is leaves outside its `ArgWithDefault`; listed
-    finding `argwithdefault-range-excludes-default`).  `ok_of_okX`: on trees without a `default` slot the two agree.
   * `TiledTab src σ N`: the span table of `N` tokens tiles `src` (every span a well-formed slice on character
     boundaries; later tokens start after earlier ones end).
   * `Res src lo hi e`: the tree of `e` is fine (own range, enclosure, sibling order, recursively) and its range
@@ -12,63 +9,6 @@ import PV.C02.RParse
 -/
 namespace PV.C02
 open PV.Expr PV.C11
-
-/-! ### the checker with the parameter-default exemption -/
-
-def exemptEncloseX (slot : String) : Bool := slot == "decorator_list" || slot == "default"
-
-def enclOkX (par : Option (Nat × Nat)) (slot : String) (r : Option (Nat × Nat)) : Bool :=
-  match par, r with
-  | some (a, b), some (c, d) => exemptEncloseX slot || (a ≤ c && d ≤ b)
-  | _, _ => true
-
-mutual
-def okX (src : List Nat) (par : Option (Nat × Nat)) : Tree → Bool
-  | .node k slot _ r cs =>
-    ownOk src r && enclOkX par slot r && sibsOk k cs && okListX src (r.orElse fun _ => par) cs
-def okListX (src : List Nat) (par : Option (Nat × Nat)) : List Tree → Bool
-  | [] => true
-  | t :: ts => okX src par t && okListX src par ts
-end
-
-/-- `rangesOk` minus the enclosure of parameter defaults -/
-def rangesOkX (src : List Nat) (t : Tree) : Bool := okX src none t
-
-mutual
-/-- no node sits in a slot `default` -/
-def noDefaultSlot : Tree → Bool
-  | .node _ slot _ _ cs => slot != "default" && noDefaultSlotL cs
-def noDefaultSlotL : List Tree → Bool
-  | [] => true
-  | t :: ts => noDefaultSlot t && noDefaultSlotL ts
-end
-
-mutual
-theorem ok_of_okX (src : List Nat) : ∀ (t : Tree) (par : Option (Nat × Nat)),
-    okX src par t = true → noDefaultSlot t = true → ok src par t = true
-  | .node k slot il r cs, par => by
-    intro h hn
-    simp only [okX, Bool.and_eq_true] at h
-    simp only [noDefaultSlot, Bool.and_eq_true, bne_iff_ne, ne_eq] at hn
-    simp only [ok, Bool.and_eq_true]
-    refine ⟨⟨⟨h.1.1.1, ?_⟩, h.1.2⟩, okList_of_okListX src cs _ h.2 hn.2⟩
-    have := h.1.1.2
-    unfold enclOkX exemptEncloseX at this
-    unfold enclOk exemptEnclose
-    split <;> simp_all
-theorem okList_of_okListX (src : List Nat) : ∀ (ts : List Tree) (par : Option (Nat × Nat)),
-    okListX src par ts = true → noDefaultSlotL ts = true → okList src par ts = true
-  | [], _ => by simp [okList]
-  | t :: ts, par => by
-    intro h hn
-    simp only [okListX, Bool.and_eq_true] at h
-    simp only [noDefaultSlotL, Bool.and_eq_true] at hn
-    simp only [okList, Bool.and_eq_true]
-    exact ⟨ok_of_okX src t par h.1 hn.1, okList_of_okListX src ts par h.2 hn.2⟩
-end
-
-theorem rangesOk_of_rangesOkX (src : List Nat) (t : Tree) (h : rangesOkX src t = true)
-    (hn : noDefaultSlot t = true) : rangesOk src t = true := ok_of_okX src t none h hn
 
 /-! ### well-formed ranges and tiled span tables -/
 
@@ -130,7 +70,7 @@ end TiledTab
 
 /-- sibling order and everything below the node are fine -/
 def innerOk (src : List Nat) (e : RExpr) : Prop :=
-  sibsOk e.kind e.children = true ∧ okListX src (some e.range) e.children = true
+  sibsOk e.kind e.children = true ∧ okList src (some e.range) e.children = true
 
 /-- `e`'s tree is fine and its range lies in `[lo, hi]` -/
 def Res (src : List Nat) (lo hi : Nat) (e : RExpr) : Prop :=
@@ -145,35 +85,25 @@ theorem Res.le {src lo hi} {e : RExpr} (h : Res src lo hi e) : lo ≤ hi := by
   have := h.2.1; have := h.2.2.1; omega
 
 /-- the node of a fine expression passes the checker below any range that contains its window, in any slot -/
-theorem Res.toOkX {src lo hi} {e : RExpr} (h : Res src lo hi e) (slot : String) (il : Bool) (a b : Nat)
+theorem Res.toOk {src lo hi} {e : RExpr} (h : Res src lo hi e) (slot : String) (il : Bool) (a b : Nat)
     (ha : a ≤ lo) (hb : hi ≤ b) :
-    okX src (some (a, b)) (.node e.kind slot il (some e.range) e.children) = true := by
+    ok src (some (a, b)) (.node e.kind slot il (some e.range) e.children) = true := by
   obtain ⟨h1, h2, h3, h4, h5⟩ := h
-  simp only [okX, Bool.and_eq_true, Option.orElse]
+  simp only [ok, Bool.and_eq_true, Option.orElse]
   refine ⟨⟨⟨h1, ?_⟩, h4⟩, h5⟩
-  simp only [enclOkX, Bool.or_eq_true, Bool.and_eq_true, decide_eq_true_eq]
+  simp only [enclOk, Bool.or_eq_true, Bool.and_eq_true, decide_eq_true_eq]
   right; omega
 
 /-- …and at the root -/
-theorem Res.toOkX_root {src lo hi} {e : RExpr} (h : Res src lo hi e) (slot : String) (il : Bool) :
-    okX src none (e.toTree slot il) = true := by
+theorem Res.toOk_root {src lo hi} {e : RExpr} (h : Res src lo hi e) (slot : String) (il : Bool) :
+    ok src none (e.toTree slot il) = true := by
   obtain ⟨h1, h2, h3, h4, h5⟩ := h
-  simp only [RExpr.toTree, okX, Bool.and_eq_true, Option.orElse]
-  exact ⟨⟨⟨h1, by simp [enclOkX]⟩, h4⟩, h5⟩
-
-/-- …and in the exempt slot `default`, wherever it lies -/
-theorem Res.toOkX_default {src lo hi} {e : RExpr} (h : Res src lo hi e) (il : Bool) (par : Option (Nat × Nat)) :
-    okX src par (.node e.kind "default" il (some e.range) e.children) = true := by
-  obtain ⟨h1, h2, h3, h4, h5⟩ := h
-  simp only [okX, Bool.and_eq_true, Option.orElse]
-  refine ⟨⟨⟨h1, ?_⟩, h4⟩, h5⟩
-  cases par with
-  | none => simp [enclOkX]
-  | some p => simp [enclOkX, exemptEncloseX]
+  simp only [RExpr.toTree, ok, Bool.and_eq_true, Option.orElse]
+  exact ⟨⟨⟨h1, by simp [enclOk]⟩, h4⟩, h5⟩
 
 /-- building a fine node from its parts -/
 theorem Res.intro {src lo hi} {e : RExpr} (h1 : rgOk src e.range) (h2 : lo ≤ e.range.1) (h3 : e.range.2 ≤ hi)
-    (h4 : sibsOk e.kind e.children = true) (h5 : okListX src (some e.range) e.children = true) : Res src lo hi e :=
+    (h4 : sibsOk e.kind e.children = true) (h5 : okList src (some e.range) e.children = true) : Res src lo hi e :=
   ⟨h1, h2, h3, h4, h5⟩
 
 /-! ### items in consecutive windows -/
@@ -281,17 +211,17 @@ theorem sibsOk_toTrees (src : List Nat) (k s : String) : ∀ (es : List RExpr) (
     split <;> simp <;> omega
 
 /-- …and every element passes the checker below a range that contains the whole sequence -/
-theorem okListX_toTrees (src : List Nat) (s : String) (a b : Nat) : ∀ (es : List RExpr) (lo hi : Nat),
-    SeqG (Res src) lo hi es → a ≤ lo → hi ≤ b → okListX src (some (a, b)) (toTrees s es) = true
-  | [], _, _, _, _, _ => by simp [toTrees, okListX]
+theorem okList_toTrees (src : List Nat) (s : String) (a b : Nat) : ∀ (es : List RExpr) (lo hi : Nat),
+    SeqG (Res src) lo hi es → a ≤ lo → hi ≤ b → okList src (some (a, b)) (toTrees s es) = true
+  | [], _, _, _, _, _ => by simp [toTrees, okList]
   | e :: es, lo, hi, ⟨m, h1, h2, h3⟩, ha, hb => by
-    simp only [toTrees, okListX, Bool.and_eq_true]
+    simp only [toTrees, okList, Bool.and_eq_true]
     have := h1.le
-    exact ⟨h1.toOkX s true a b ha (by omega), okListX_toTrees src s a b es m hi h3 (by omega) hb⟩
+    exact ⟨h1.toOk s true a b ha (by omega), okList_toTrees src s a b es m hi h3 (by omega) hb⟩
 
-theorem okListX_append (src : List Nat) (par : Option (Nat × Nat)) : ∀ (xs ys : List Tree),
-    okListX src par (xs ++ ys) = (okListX src par xs && okListX src par ys)
-  | [], _ => by simp [okListX]
-  | x :: xs, ys => by simp [okListX, okListX_append src par xs ys, Bool.and_assoc]
+theorem okList_append (src : List Nat) (par : Option (Nat × Nat)) : ∀ (xs ys : List Tree),
+    okList src par (xs ++ ys) = (okList src par xs && okList src par ys)
+  | [], _ => by simp [okList]
+  | x :: xs, ys => by simp [okList, okList_append src par xs ys, Bool.and_assoc]
 
 end PV.C02
